@@ -1,6 +1,6 @@
 """C03 -- signatures depend only on program content, never on the environment."""
 import re
-from contracts import sigs, hashing, syntactic, retrieve_rec, introspect_fun
+from contracts import sigs, hashing, syntactic, retrieve_rec, introspect_fun, introspect_class
 
 ID = "C03"
 LEVEL = "other"
@@ -28,7 +28,7 @@ class _Replay(dict):
 
 
 REPLAY = _Replay()
-_OWN = re.compile(r"^(dds_hash_commut#|_fis_to_siglist#|_build_return_sig#|_algo_|dds_hash\._dds_hash0#(ensures:result_is_spec_hash|comp\d|signals)|signatures#frame|ObjectRetrieval\._retrieve_object_rec#ensures:pinned_|^_introspect_fun#)")
+_OWN = re.compile(r"^(dds_hash_commut#|_fis_to_siglist#|_build_return_sig#|_algo_|dds_hash\._dds_hash0#(ensures:result_is_spec_hash|comp\d|signals)|signatures#frame|ObjectRetrieval\._retrieve_object_rec#ensures:pinned_|^_introspect_fun#|^_introspect_class#(signals:|ensures:(the_cache_is_asked|without_analysis|a_hit_|analysed_|cached_under|the_process_wide)))")
 
 
 def owns(name, kind):
@@ -38,7 +38,7 @@ def owns(name, kind):
 def specs():
     # name resolution decides what a signature mentions (an untracked name reported as an ExternalObject is named in its
     # reader's signature, one reported as None is not): the exact result of every case is pinned here
-    return [c() for c in sigs.SPECS] + [c() for c in hashing.SPECS] + [c() for c in retrieve_rec.SPECS] + [c() for c in introspect_fun.SPECS]
+    return [c() for c in sigs.SPECS] + [c() for c in hashing.SPECS] + [c() for c in retrieve_rec.SPECS] + [c() for c in introspect_fun.SPECS] + [c() for c in introspect_class.SPECS]
 
 
 def lemmas():
